@@ -1,10 +1,15 @@
 /-
-C18 — the DCT clause: `fdct_valid` (ForwardDCT of any pixel block IsValid), over
-`Model/Jpeg/Dct.lean`.  The "IDCT∘FDCT within one" sentence is false (known finding), see the
-OPEN note at the end.
+C18 — the DCT clause: `fdct_valid` (ForwardDCT of any pixel block IsValid) and
+`idct_fdct_within_four` (|IDCT(FDCT b) − b| ≤ 4 for every block), over `Model/Jpeg/Dct.lean`.
+The "IDCT∘FDCT within one" sentence is false (known finding, `idct_fdct_not_within_one`); what is
+known about the true maximum (between 2 and 4) is in the note at the end.
 -/
 import WuffsVerif.Proof.JpegDct
-open WuffsVerif.Gen.C18 WuffsVerif.Jpeg WuffsVerif.Jpeg.Dct WuffsVerif.Jpeg.DctP
+import WuffsVerif.Proof.JpegDctBudgetA
+import WuffsVerif.Proof.JpegDctBudgetB
+import WuffsVerif.Proof.JpegDctBudgetC
+import WuffsVerif.Proof.JpegDctBudgetD
+open WuffsVerif.Gen.C18 WuffsVerif.Jpeg WuffsVerif.Jpeg.Dct WuffsVerif.Jpeg.DctP WuffsVerif.Jpeg.DctB
 
 namespace WuffsVerif.Props.C18
 
@@ -28,16 +33,21 @@ theorem forwardDCT_getD (src : Array Nat) (k : Nat) (hk : k < 64) :
     (forwardDCT src).getD k 0 = toInt16 (fdctCoef src k) := by
   simp [forwardDCT, Array.getD, hk]
 
+/-- the `int16(result0)` conversion of `ForwardDCTFrom` never wraps: element `k` of the output IS
+    `result0` -/
+theorem forwardDCT_getD_exact (src : Array Nat) (hsrc : ∀ i, src.getD i 0 ≤ 255) (k : Nat) (hk : k < 64) :
+    (forwardDCT src).getD k 0 = fdctCoef src k := by
+  have := fdct_coef_range src hsrc k hk
+  rw [forwardDCT_getD src k hk]
+  unfold toInt16
+  split at this <;> omega
+
 /-- **fdct_valid**: `ForwardDCTFrom` of any `BlockU8` satisfies `BlockI16.IsValid`
     (and the int16 conversion never wraps) -/
 theorem fdct_valid (src : Array Nat) (hsrc : ∀ i, src.getD i 0 ≤ 255) :
     blockIsValid (forwardDCT src) = true := by
-  have hr : ∀ k, k < 64 → (forwardDCT src).getD k 0 = fdctCoef src k := by
-    intro k hk
-    have := fdct_coef_range src hsrc k hk
-    rw [forwardDCT_getD src k hk]
-    unfold toInt16
-    split at this <;> omega
+  have hr : ∀ k, k < 64 → (forwardDCT src).getD k 0 = fdctCoef src k :=
+    fun k hk => forwardDCT_getD_exact src hsrc k hk
   unfold blockIsValid
   simp only [Bool.and_eq_true, decide_eq_true_eq, List.all_eq_true]
   refine ⟨?_, fun i hi => ?_⟩
@@ -70,16 +80,93 @@ theorem fdct_sum_bounds (src : Array Nat) (hsrc : ∀ i, src.getD i 0 ≤ 255) (
 example : (∀ i, (Array.replicate 64 0 : Array Nat).getD i 0 ≤ 255) := by
   intro i; simp [Array.getD]
 
--- OPEN: idct_fdct_within (the property's last sentence, K = 1):
---   ∀ src, (∀ i, src.getD i 0 ≤ 255) → ∀ i < 64,
---     |(inverseDCT (forwardDCT src)).getD i 0 − src.getD i 0| ≤ 1
--- is FALSE, for the model and for the implementation: `idct_fdct_not_within_one` below proves
--- it on a concrete block (KNOWN FINDING, findings/C18/idct-fdct-error2.txt; the harness
--- re-evaluates the witnesses on every run and the model agrees with the implementation on them
--- byte for byte).  No upper bound K is proved: a norm bound (rounding error ≤ 1/2 per coefficient
--- times the ∞-norm ≈ 6.98 of the IDCT rows, plus the fixed-point error of the cosine table, plus
--- the final rounding) would give K = 4; the search (3·10⁶ random + 6000 hill-climbed blocks per
--- thorough run) has never seen an error above 2.
+/-! ### IDCT ∘ FDCT: the bound that holds for every block (K = 4) -/
+
+/-- the error budget (`Proof/JpegDctBound.lean`) of every pixel is below 4.25·10^24 ≈ 3.5155 · 2^80:
+    64 kernel evaluations over the regenerated tables (`Proof/JpegDctBudgetA–D.lean`) -/
+theorem budget_le (i : Nat) (hi : i < 64) : budget i ≤ 4250000000000000000000000 := by
+  rw [budget_eq]
+  have h : budgetOK i = true := by
+    rcases (by omega : i < 16 ∨ (16 ≤ i ∧ i < 32) ∨ (32 ≤ i ∧ i < 48) ∨ (48 ≤ i ∧ i < 64)) with h | h | h | h
+    · exact List.all_eq_true.mp budget_ok_A i (List.mem_range'_1.mpr ⟨by omega, by omega⟩)
+    · exact List.all_eq_true.mp budget_ok_B i (List.mem_range'_1.mpr ⟨by omega, by omega⟩)
+    · exact List.all_eq_true.mp budget_ok_C i (List.mem_range'_1.mpr ⟨by omega, by omega⟩)
+    · exact List.all_eq_true.mp budget_ok_D i (List.mem_range'_1.mpr ⟨by omega, by omega⟩)
+  simpa [budgetOK] using h
+
+/-- `result0` of `InverseDCTFrom`, run on the output of `ForwardDCTFrom`, is within 4 of the biased
+    pixel `src[i] − 128` — for every block of bytes and every pixel.  (So `result0 ∈ [−132, 131]`:
+    the index `result0 & 1023` into `biasAndClamp` never aliases.) -/
+theorem idctRaw_fdct_within_four (src : Array Nat) (hsrc : ∀ i, src.getD i 0 ≤ 255) (i : Nat) (hi : i < 64) :
+    -4 ≤ idctRaw (forwardDCT src) i - (((src.getD i 0 : Nat) : Int) - 128) ∧
+    idctRaw (forwardDCT src) i - (((src.getD i 0 : Nat) : Int) - 128) ≤ 4 := by
+  have hT : isum32 (fun k => (forwardDCT src).getD k 0) i (List.range 64) =
+      dot (fdctCoef src) (fun k => wL k i) (List.range 64) := by
+    rw [isum32_eq_L _ (fdctCoef src) i (List.range 64)
+      (fun k hk => forwardDCT_getD_exact src hsrc k (List.mem_range.mp hk)), isum32L_eq_dot]
+  unfold idctRaw
+  rw [hT]
+  have a := acc_error src hsrc i hi
+  simp only at a
+  exact raw_within_four _ _ _ a.1 a.2 (budget_le i hi)
+
+/-- `biasAndClamp[n]`, in closed form (n + 128 − 1024 is truncated at 0: the clamp) -/
+theorem biasAndClamp_getD (n : Nat) (hn : n < 1024) :
+    biasAndClamp.getD n 0 = if n < 512 then min (n + 128) 255 else n + 128 - 1024 := by
+  have h : biasAndClamp.toList =
+      (List.range 1024).map (fun i => if i < 512 then min (i + 128) 255 else i + 128 - 1024) := by
+    decide +kernel
+  rw [getD_toList, h, List.getD_eq_getElem?_getD, List.getElem?_map, List.getElem?_range hn]
+  rfl
+
+/-- **idct_fdct_within_four** — the DCT clause with the bound that is true: for EVERY 8×8 block of
+    bytes, `InverseDCTFrom(ForwardDCTFrom(b))` differs from `b` by at most 4 at every pixel.
+    (The property text says 1, which is false: `idct_fdct_not_within_one`; the largest error ever
+    observed is 2.)  Proof: exact error identity of the two fixed-point matrix products + the
+    rounding allowances of the three shifts (`DctB.acc_error`), the table constant `budget`
+    evaluated by the kernel, and the clamp can only move the result towards the original byte. -/
+theorem idct_fdct_within_four (src : Array Nat) (hsrc : ∀ i, src.getD i 0 ≤ 255) (i : Nat) (hi : i < 64) :
+    -4 ≤ (((inverseDCT (forwardDCT src)).getD i 0 : Nat) : Int) - ((src.getD i 0 : Nat) : Int) ∧
+    (((inverseDCT (forwardDCT src)).getD i 0 : Nat) : Int) - ((src.getD i 0 : Nat) : Int) ≤ 4 := by
+  have h1 : (inverseDCT (forwardDCT src)).getD i 0 =
+      biasAndClamp.getD ((idctRaw (forwardDCT src) i) % 1024).toNat 0 := by
+    simp [inverseDCT, Array.getD, hi]
+  have hr := idctRaw_fdct_within_four src hsrc i hi
+  have hb := hsrc i
+  rw [h1]
+  generalize idctRaw (forwardDCT src) i = R at hr ⊢
+  generalize src.getD i 0 = b at hr hb ⊢
+  generalize hn : (R % 1024).toNat = n
+  have hn1 : n < 1024 := by omega
+  rw [biasAndClamp_getD n hn1]
+  split
+  · rw [Nat.min_def]
+    split <;> omega
+  · omega
+
+/-- non-vacuity / tightness: the bound is not vacuous (hypothesis satisfiable, see the `example`
+    after `fdct_sum_bounds`), and it cannot be lowered below 2 (`idct_fdct_not_within_one`). -/
+example : (∀ i, (Array.replicate 64 255 : Array Nat).getD i 0 ≤ 255) := by
+  intro i; simp [Array.getD]; split <;> simp
+
+-- NOTE on the property's last sentence ("returns each pixel to within one", K = 1) and on the
+-- true maximum of |IDCT(FDCT b) − b|:
+--   * K = 1 is FALSE for the model and for the implementation: `idct_fdct_not_within_one` below
+--     proves it on a concrete block (KNOWN FINDING, findings/C18/idct-fdct-error2.txt; the harness
+--     re-evaluates the witnesses on every run and the model agrees with the implementation on
+--     them byte for byte).
+--   * K = 4 is proved above for all 256^64 blocks.  The budget is
+--       128·Σ_j|E i j| (0.0220) + Σ_k |w k i|·a k·2^15 (0.00001) + Σ_k |w k i|·2^47 (3.4896) + ½ (final shift)
+--     = 4.0116 (in pixel units; identical for the 64 pixels), so |error| < 4.02, i.e. ≤ 4.
+--   * OPEN: K = 3 and K = 2.  The analysis treats the 64 rounding residues of the FDCT as
+--     independent; the third term is ½·‖row of the IDCT matrix‖₁ = ½·6.979 and cannot be improved
+--     without using how the residues depend on the block, which is a closest-vector question for
+--     the lattice (orthonormal DCT)(ℤ^64) in dimension 64.  K = 3 fails by 0.0116 (4.0116 > 4);
+--     using that the DC coefficient is exactly round(Σ s / 8) with ties upwards would give −3 on
+--     the negative side only.  K = 2 is what the search sees (3·10⁶ random + 6000 hill-climbed
+--     blocks per thorough run: never above 2; error 2 in about 1 of 10⁵ random blocks); an error
+--     of 3 needs the residues to line up to 72 % of the extreme, about 8.7 standard deviations for
+--     independent uniform residues (p ≈ 10⁻¹⁷ per pixel) — too rare for search, not excluded by it.
 
 /-- **Known finding, formally** (`idct_fdct_not_within_one`): the property's last sentence —
     "the inverse DCT of [the forward DCT] returns each pixel to within one" — is false for the
